@@ -20,6 +20,7 @@ RULE = ("block level: every (l_a, l_b) in 0..5 x 0..5 enumerated, K in 1..4, M i
         "zero and (l>0 or K>1 or M>1); distinct by the hash of the exact input; hp stream: 8 (quick) / 80 (thorough) "
         "shell pairs l<=2 / l<=4, K,M<=2 (general / coincident / full-mantissa / tight pair 100-150 bohr from the "
         "origin), replayed at 260 bits, tolerance 1e-18 x sum|primitive terms|")
+RULE += " HISTORY stream (the returned value depends only on the arguments): basis-level shells carry the atom index (icenter; shells sharing a centre share it); every 2nd generated basis (quick; every 4th thorough) and every 5th same-centre pair is a GEOMETRY SCAN evaluated in one process: the same shells (exponents, coefficients, types, icenter) with the atoms displaced rigidly by k/16 bohr (one atom, or every atom by its own vector) at 1-2 further geometries, then the first geometry again; every call is compared with the exact model at its own geometry with the same tolerance (detail kind \"history\", the replay case contains the geometries; shrinking and replay evaluate every candidate sequence in a fresh process)"
 ASSUMPTIONS = ["floating-point rounding of the NumPy pipeline is not modelled: the 1e-8 bound is decided on the "
                "generated inputs against the exact value"]
 TOL = 1e-8
@@ -42,18 +43,37 @@ def eval_case(model, case):
         nontriv = (sa.l + sb.l > 0 or len(sa.exps) > 1 or len(sb.exps) > 1) and np.any(impl != 0)
         return {"detail": d, "nontrivial": bool(nontriv), "tag": "block l=%d,%d" % (sa.l, sb.l)}
     if kind == "basis":
-        basis = [XShell.from_json(s) for s in case["basis"]]
-        res = model.call("(2 (%s) ())" % " ".join(s.sx() for s in basis))
-        st, impl = call_impl(overlap_integral, [s.to_gbasis() for s in basis])
-        if st != "ok":
-            return {"detail": {"kind": "rejected", "impl": impl}, "tag": "basis"}
-        d = compare(impl, res, tol_abs=TOL)
-        if d is None:
-            dg = np.abs(np.diag(impl) - 1.0)
-            if dg.size and dg.max() > TOL:
-                d = {"kind": "diagonal", "index": int(dg.argmax()), "impl": repr(float(np.diag(impl)[dg.argmax()]))}
-        types = "".join("s" if s.sph else "c" for s in basis)
-        return {"detail": d, "nontrivial": True, "tag": "basis n=%d %s" % (len(basis), types)}
+        import twoindex
+        basis0 = [XShell.from_json(s) for s in case["basis"]]
+        # basis-level shells carry the atom index (icenter); shells sharing a centre share it
+        ids = twoindex.atom_ids(twoindex.case_geometries(case))
+        first = {}
+
+        def one(basis, step=0, repeat=False):
+            res = first["res"] if repeat else model.call("(2 (%s) ())" % " ".join(s.sx() for s in basis))
+            st, impl = call_impl(overlap_integral, [s.to_gbasis(icenter=a) for s, a in zip(basis, ids)])
+            if st != "ok":
+                return {"kind": "rejected", "impl": impl}
+            if step == 0:
+                first.update(res=res, impl=np.array(impl, copy=True))
+            d = compare(impl, res, tol_abs=TOL)
+            if d is None:
+                dg = np.abs(np.diag(impl) - 1.0)
+                if dg.size and dg.max() > TOL:
+                    d = {"kind": "diagonal", "index": int(dg.argmax()), "impl": repr(float(np.diag(impl)[dg.argmax()]))}
+            if repeat and d is None:
+                first["bit-identical"] = bool(np.array_equal(np.asarray(impl), first["impl"]))
+            return d
+
+        types = "".join("s" if s.sph else "c" for s in basis0)
+        tag = "basis n=%d %s%s" % (len(basis0), types, " hist" if case.get("hist") else "")
+        d = one(basis0)
+        if d is not None:
+            return {"detail": d, "nontrivial": True, "tag": tag}
+        d, stats = twoindex.run_history(case, basis0, lambda shells, _ids, step, repeat: one(shells, step, repeat))
+        if "bit-identical" in first:
+            stats["history-repeat-bit-identical"] = 1 if first["bit-identical"] else 0
+        return {"detail": d, "nontrivial": True, "tag": tag, "stats": stats}
     if kind == "asymm":
         b1 = [XShell.from_json(s) for s in case["b1"]]
         b2 = [XShell.from_json(s) for s in case["b2"]]
@@ -112,6 +132,10 @@ def shrink_case(case):
                 c[key] = t
                 yield c
     else:
+        import twoindex
+        for c in twoindex.shrink_history(case):
+            yield c
+        hist = case.get("hist") or None
         keys = ["basis"] if kind == "basis" else ["b1", "b2"]
         for key in keys:
             lst = case[key]
@@ -119,6 +143,8 @@ def shrink_case(case):
                 for i in range(len(lst)):
                     c = dict(case)
                     c[key] = lst[:i] + lst[i + 1:]
+                    if hist and key == "basis":
+                        c["hist"] = [g[:i] + g[i + 1:] for g in hist]
                     yield c
             for i, sj in enumerate(lst):
                 for t in shrink_shell_json(sj):
@@ -141,10 +167,16 @@ def gen_cases(tier, seed):
         c.pop("T", None)
     nb = 50 if tier == "quick" else 400
     lmax = 3 if tier == "quick" else 5
+    # HISTORY: every 2nd (quick) / 4th (thorough) basis carries a geometry scan (twoindex.add_history), own PRNG
+    hrng = random.Random(1000003 * seed + 1 + 7919)
+    hist_every = 2 if tier == "quick" else 4
     for i in range(nb):
         n = 1 + i % 4
         basis = gen_basis(rng, n, lmax=lmax if n <= 2 else min(lmax, 3), kmax=4, mmax=3)
-        cases.append({"kind": "basis", "basis": [s.to_json() for s in basis]})
+        c = {"kind": "basis", "basis": [s.to_json() for s in basis]}
+        if (i // 4 + i) % hist_every == 1:
+            twoindex.add_history(hrng, c, 1 + (i // 3) % 2)
+        cases.append(c)
     na = 16 if tier == "quick" else 120
     for i in range(na):
         n1, n2 = 1 + i % 2, 1 + (i // 2) % 3
@@ -158,7 +190,7 @@ def run(rep, tier, seed, model, replay):
         cases = [replay["case"]]
     else:
         cases = gen_cases(tier, seed)
-    run_cases(rep, cases, eval_case, shrinkfn=shrink_case)
+    run_cases(rep, cases, eval_case, shrinkfn=shrink_case, isolate=True)
 
 
 def xcheck_cmds(seed):
